@@ -487,6 +487,9 @@ pub async fn catch_up_sub(
         }
     });
 
+    #[cfg(feature = "verif-hooks")]
+    klukai_types::verif::apoint("sub.catchup.start").await;
+
     let mut last_change_id = {
         let res = match params.from {
             Some(from) => catch_up_sub_from(&matcher, from, &evt_tx).await,
@@ -520,6 +523,9 @@ pub async fn catch_up_sub(
             }
         }
     };
+
+    #[cfg(feature = "verif-hooks")]
+    klukai_types::verif::apoint("sub.catchup.after_read").await;
 
     let mut min_change_id = last_change_id + 1;
     info!(sub_id = %matcher.id(), "minimum expected change id: {min_change_id:?}");
@@ -612,6 +618,9 @@ pub async fn catch_up_sub(
         }
     }
 
+    #[cfg(feature = "verif-hooks")]
+    klukai_types::verif::apoint("sub.catchup.before_cancel").await;
+
     // cancel queue task!
     cancel.cancel();
 
@@ -630,6 +639,9 @@ pub async fn catch_up_sub(
             last_change_id = change_id;
         }
     }
+
+    #[cfg(feature = "verif-hooks")]
+    klukai_types::verif::apoint("sub.catchup.before_forward").await;
 
     let sub_rx = match queue_task.await {
         Ok(Ok(sub_rx)) => sub_rx,
